@@ -1589,3 +1589,53 @@ def rule_migmisc(text):
             apps.append(_app(rname, text, mm.start(), mm.end(), new, why))
             text = text[:mm.start()] + new + text[mm.end():]
     return text, apps
+
+
+def rule_matches(text):
+    """`matches!(E, P1 | P2 | ..)` -> `(match E { P1 => true, P2 => true, .., _ => false })` (no guards)"""
+    apps = []
+    while True:
+        m = mask(text)
+        mm = re.search(r"\bmatches!\s*\(", m)
+        if not mm:
+            return text, apps
+        op = mm.end() - 1
+        cl = match_close(m, op)
+        inner = text[op + 1:cl]
+        parts = split_top_level(m[op + 1:cl], inner, ",")
+        if len(parts) != 2 or re.search(r"\bif\b", mask(parts[1])):
+            return text, apps
+        pats = [p.strip() for p in split_top_level(mask(parts[1]), parts[1], "|") if p.strip()]
+        new = "(match %s { %s, _ => false })" % (parts[0].strip(), ", ".join("%s => true" % p for p in pats))
+        apps.append(_app("R-matches", text, mm.start(), cl + 1, new, "definition of matches! without a guard"))
+        text = text[:mm.start()] + new + text[cl + 1:]
+
+
+def rule_workerloopmisc(text):
+    """worker loop / retirement-queue flush one-offs (write_buffer.rs)"""
+    apps = []
+    text, a_ = rule_matches(text)
+    apps += a_
+    ws = r"\s*"
+    table = [
+        (r"(\w+)\.recv_timeout\(" + ws + r"Duration::from_millis\((\d+)\)" + ws + r"\)", r"\1.recv_timeout_ms(\2)", "R-chan", "shim: receiving a flush request with a timeout"),
+        (r"std::mem::take\(&mut" + ws + r"\*(\w+)\)", r"\1.take_all()", "R-take", "shim: mem::take through the mutex guard = all queued entries, the queue left empty"),
+        (r"\(" + ws + r"(\w+)" + ws + r"\*" + ws + r"2" + ws + r"\)" + ws + r"\." + ws + r"min\(" + ws + r"1_000" + ws + r"\)", r"min_u64(\1 * 2, 1_000)", "R-arith", "definition of Ord::min on u64 (verified shim)"),
+        (r"result\.map\(\|_\|" + ws + r"has_retries\)", "(match result { Ok(_) => Ok(has_retries), Err(e_) => Err(e_) })", "R-rmap", "definition of Result::map with a closure ignoring its argument"),
+        (r"Err\(error" + ws + r"@" + ws + r"(FeoxError::IndeterminateWrite\(_\))\)", r"Err(\1)", "R-bind", "binding used only by the dropped log line"),
+        (r"flush_rx:" + ws + r"Receiver<FlushRequest>", "flush_rx: Receiver", "R-handle", "opaque handle for the request channel"),
+        (r"let" + ws + r"_flush_guard" + ws + r"=" + ws + r"retirement_queue\.flush\.lock\(\);", "let _flush_guard = retirement_queue.flush.lock();", "R-ws", "unchanged"),
+    ]
+    for pat, rep, rname, why in table:
+        n = 0
+        while n < 8:
+            n += 1
+            mm = re.search(pat, text)
+            if not mm:
+                break
+            new = mm.expand(rep)
+            if new == text[mm.start():mm.end()]:
+                break
+            apps.append(_app(rname, text, mm.start(), mm.end(), new, why))
+            text = text[:mm.start()] + new + text[mm.end():]
+    return text, apps
